@@ -232,6 +232,11 @@ bool ComponentEntity::replaceComponent(size_t index, const ComponentPtr &newComp
     }
 
     if (removeComponent(index)) {
+        // Prevent the new component from being listed by two entities: move it here.
+        if (newComponent->hasParent()) {
+            removeComponentFromEntity(newComponent->parent(), newComponent);
+        }
+        index = std::min(index, pFunc()->mComponents.size());
         pFunc()->mComponents.insert(pFunc()->mComponents.begin() + ptrdiff_t(index), newComponent);
         newComponent->pFunc()->setParent(parent);
         status = true;
